@@ -207,7 +207,7 @@ def run_parts(prop, tier, scratch, parts, known, replay=None):
             env = goenv()
             env.update({
                 "VERIF_TIER": tier, "VERIF_SHARD": "%d/%d" % (i, shards), "VERIF_OUT": outdir,
-                "VERIF_PART": part["name"], "VERIF_DEADLINE_S": str(deadline), "VERIF_KNOWN": json.dumps(sorted(known)),
+                "VERIF_PART": part["name"], "VERIF_PROP_ID": prop, "VERIF_DEADLINE_S": str(deadline), "VERIF_KNOWN": json.dumps(sorted(known)),
                 "VERIF_PP": pp, "VERIF_SCRATCH": scratch, "VERIF_REPO_DIR": REPO, "VERIF_DIR": VERIF,
                 "VERIF_SEED": os.environ.get("VERIF_SEED", "0"),
                 "GOMAXPROCS": str(part.get("gomaxprocs", 1)),
